@@ -1219,7 +1219,7 @@ impl Plan {
 
 pub fn total(tier: Tier) -> u64 {
     match tier {
-        Tier::Quick => 5200,
+        Tier::Quick => 5400,
         Tier::Thorough => 40_000,
     }
 }
@@ -1239,6 +1239,46 @@ pub fn gen_case(plan: &Plan, tier: Tier, seed: u64, idx: u64) -> Case {
         });
     }
     let slot = idx / 5 * 4 + idx % 5; // dense index over reader cases
+    // systematic block for the validating copies of the reader code: a small corpus of VCfg documents
+    // (valid, failing validation, two documents, null first document) x 4 entry points x 3 sweeps
+    const VDOCS: [&str; 8] = [
+        "name: x\nn: 5\n",
+        "name: héllo\nn: 7\nlist: [1, 2, 3]\n",
+        "name: ''\nn: 5000\n",
+        "{name: q, n: 1}",
+        "name: a\nn: 1\n---\nname: b\nn: 2\n",
+        "~\n---\nname: c\nn: 3\n...\n",
+        "\u{feff}name: bom\nn: 2\n",
+        "name: x\nn: notanumber\n---\nname: y\nn: 4\n",
+    ];
+    let vslots = (VDOCS.len() * 4 * 3) as u64;
+    if slot >= ncorp * 8 * 4 && slot < ncorp * 8 * 4 + vslots {
+        let w = (slot - ncorp * 8 * 4) as usize;
+        let text = VDOCS[w % VDOCS.len()];
+        let entry = VALID_ENTRIES[(w / VDOCS.len()) % 4];
+        let sel = match w / (VDOCS.len() * 4) {
+            0 => Sel::SweepFaults {
+                kinds: vec![ErrKind::Other, ErrKind::UnexpectedEof, ErrKind::WouldBlock],
+                afters: all_afters.clone(),
+            },
+            1 => Sel::SweepEof,
+            _ => Sel::SweepReads {
+                kinds: vec![ErrKind::Other, ErrKind::ConnectionReset],
+                afters: all_afters.clone(),
+            },
+        };
+        // spans: only single-document texts carry a meaningful table
+        let spans = if text.contains("---") { vec![] } else { vec![(0, text.trim_end().len())] };
+        return Case::C10R(ReaderCase {
+            doc: Doc::from_str(text),
+            doc_spans: spans,
+            target: Target::Cfg,
+            entry,
+            opts: OptVec::default(),
+            chunking: [Chunking::Fixed(1), Chunking::Whole, Chunking::Fixed(3)][w % 3].clone(),
+            sel,
+        });
+    }
     // choose document / stream, target, entry
     let block = slot / (ncorp * 8);
     let systematic = block < 4;
